@@ -337,7 +337,7 @@ PAGE_BOXES = [[0, 0, 612, 792]] * 6 + [[0, 0, 595.25, 842], [0, 0, 200, 100], [0
                                        [0, 0, 1, 1], [-1000, -1000, -400, -200], [0, 0, 4096, 64]]
 
 
-def gen_scene(rng: random.Random, n: int, la_family: str, dense_cap: int = 100) -> Dict[str, Any]:
+def gen_scene(rng: random.Random, n: int, la_family: str, dense_cap: int = 100, la: Optional[Dict[str, Any]] = None) -> Dict[str, Any]:
     """A whole page with about n glyphs (page level + figures).
 
     Hundreds of glyphs piled into a few grid cells make the hierarchical grouping cubic (every box
@@ -361,7 +361,7 @@ def gen_scene(rng: random.Random, n: int, la_family: str, dense_cap: int = 100) 
         items.insert(rng.randint(0, len(items)), s)
     for k in in_fig:
         items.insert(rng.randint(0, len(items)), gen_figure(rng, bbox, k, 1, fams))
-    return {"bbox": bbox, "rotate": rng.choice([0, 0, 0, 90]), "items": items, "la": gen_la(rng, la_family),
+    return {"bbox": bbox, "rotate": rng.choice([0, 0, 0, 90]), "items": items, "la": la if la is not None else gen_la(rng, la_family),
             "la_family": la_family, "blocks": fams}
 
 
